@@ -60,8 +60,14 @@ def varintDigits : (maxDigits : Nat) → Bytes → Option (Nat × Nat × Bytes)
 
 /-- A Variable Byte Integer of at most four bytes using the minimum number of bytes
 ([MQTT-1.5.5-1]). -/
-def varint (bs : Bytes) : Option (Nat × Bytes) :=
-  (varintDigits 4 bs).bind fun (v, n, r) => if n = varIntSize v then some (v, r) else none
+def varint (minimal : Bool) (bs : Bytes) : Option (Nat × Bytes) :=
+  (varintDigits 4 bs).bind fun (v, n, r) => if !minimal || n = varIntSize v then some (v, r) else none
+
+/-- The same, also returning the number of bytes used.  (`minimal = false` is used ONLY to
+state that a decoder under verification differs from this specification by nothing but its
+tolerance of non-minimal encodings; the specification proper is `minimal = true`.) -/
+def varintN (minimal : Bool) (bs : Bytes) : Option (Nat × Nat × Bytes) :=
+  (varintDigits 4 bs).bind fun (v, n, r) => if !minimal || n = varIntSize v then some (v, n, r) else none
 
 /-- Two Byte Integer length prefix followed by that many bytes (§1.5.4, §1.5.6). -/
 def lenPrefixed : Bytes → Option (Bytes × Bytes)
@@ -95,12 +101,12 @@ inductive Field
   deriving DecidableEq, Repr, Inhabited
 
 /-- One value of a representation (big-endian integers, §1.5.2-3). -/
-def parseWire : WireType → Bytes → Option (List Scalar × Bytes)
+def parseWire (minimal : Bool) : WireType → Bytes → Option (List Scalar × Bytes)
   | .byte, b :: r => some ([.byte b], r)
   | .u16, a :: b :: r => some ([.u16 (UInt16.ofNat (a.toNat * 256 + b.toNat))], r)
   | .u32, a :: b :: c :: d :: r =>
     some ([.u32 (UInt32.ofNat (((a.toNat * 256 + b.toNat) * 256 + c.toNat) * 256 + d.toNat))], r)
-  | .varint, bs => (varint bs).map fun (n, r) => ([.varint n], r)
+  | .varint, bs => (varint minimal bs).map fun (n, r) => ([.varint n], r)
   | .str, bs => (lenPrefixed bs).map fun (s, r) => ([.str s], r)
   | .bin, bs => (lenPrefixed bs).map fun (s, r) => ([.bin s], r)
   | .strPair, bs => do
@@ -109,64 +115,64 @@ def parseWire : WireType → Bytes → Option (List Scalar × Bytes)
     some ([.str k, .str v], r)
   | _, _ => none
 
-def parseRow : List WireType → Bytes → Option (List Scalar × Bytes)
+def parseRow (minimal : Bool) : List WireType → Bytes → Option (List Scalar × Bytes)
   | [], bs => some ([], bs)
   | w :: ws, bs => do
-    let (v, r) ← parseWire w bs
-    let (vs, r) ← parseRow ws r
+    let (v, r) ← parseWire minimal w bs
+    let (vs, r) ← parseRow minimal ws r
     some (v ++ vs, r)
 
 /-- Rows until the input is exhausted (`fuel` ≥ number of input bytes suffices). -/
-def parseRows (row : List WireType) : (fuel : Nat) → Bytes → Option (List (List Scalar))
+def parseRows (minimal : Bool) (row : List WireType) : (fuel : Nat) → Bytes → Option (List (List Scalar))
   | _, [] => some []
   | 0, _ => none
   | f + 1, bs => do
-    let (vs, r) ← parseRow row bs
-    (vs :: ·) <$> parseRows row f r
+    let (vs, r) ← parseRow minimal row bs
+    (vs :: ·) <$> parseRows minimal row f r
 
 /-- Properties until the input is exhausted: identifier, then a value of the type Table 2-4
 gives that identifier.  (The identifier is formally a Variable Byte Integer, §2.2.2.2, but
 every defined identifier is a single byte, so an unknown first byte is malformed.) -/
-def parseTLVs : (fuel : Nat) → Bytes → Option (List RawProp)
+def parseTLVs (minimal : Bool) : (fuel : Nat) → Bytes → Option (List RawProp)
   | _, [] => some []
   | 0, _ => none
   | f + 1, id :: r => do
     let w ← propertyWireType id
-    let (vs, r) ← parseWire w r
-    ((id, vs) :: ·) <$> parseTLVs f r
+    let (vs, r) ← parseWire minimal w r
+    ((id, vs) :: ·) <$> parseTLVs minimal f r
 
 /-- §2.2.2.1 Property Length (a Variable Byte Integer), then exactly that many bytes of properties. -/
-def parseProps (bs : Bytes) : Option (List RawProp × Bytes) := do
-  let (len, r) ← varint bs
+def parseProps (minimal : Bool) (bs : Bytes) : Option (List RawProp × Bytes) := do
+  let (len, r) ← varint minimal bs
   guard (len ≤ r.length)
-  let ps ← parseTLVs len (r.take len)
+  let ps ← parseTLVs minimal len (r.take len)
   some (ps, r.drop len)
 
 /-- Fields of a layout, and the bytes left over. -/
-def parseItems : List Item → Bytes → Option (List Field × Bytes)
+def parseItems (minimal : Bool) : List Item → Bytes → Option (List Field × Bytes)
   | [], bs => some ([], bs)
   | .val w :: is, bs => do
-    let (vs, r) ← parseWire w bs
-    let (fs, r) ← parseItems is r
+    let (vs, r) ← parseWire minimal w bs
+    let (fs, r) ← parseItems minimal is r
     some (vs.map .val ++ fs, r)
   | .absent :: is, bs => do
-    let (fs, r) ← parseItems is bs
+    let (fs, r) ← parseItems minimal is bs
     some (.absent :: fs, r)
   | .props :: is, bs => do
-    let (ps, r) ← parseProps bs
-    let (fs, r) ← parseItems is r
+    let (ps, r) ← parseProps minimal bs
+    let (fs, r) ← parseItems minimal is r
     some (.props ps :: fs, r)
   | .rest :: is, bs => do
-    let (fs, r) ← parseItems is []
+    let (fs, r) ← parseItems minimal is []
     some (.rest bs :: fs, r)
   | .many row :: is, bs => do
-    let rows ← parseRows row bs.length bs
-    let (fs, r) ← parseItems is []
+    let rows ← parseRows minimal row bs.length bs
+    let (fs, r) ← parseItems minimal is []
     some (.many rows :: fs, r)
 
 /-- The body must be exactly the fields of its layout: nothing missing, nothing left. -/
-def parseBody (layout : List Item) (body : Bytes) : Option (List Field) :=
-  (parseItems layout body).bind fun (fs, left) => if left.isEmpty then some fs else none
+def parseBody (minimal : Bool) (layout : List Item) (body : Bytes) : Option (List Field) :=
+  (parseItems minimal layout body).bind fun (fs, left) => if left.isEmpty then some fs else none
 
 /-! ## fixed header -/
 
@@ -180,15 +186,15 @@ structure Frame where
 /-- §2.1 / 3.1.1 §2.2: byte 1 = type nibble (must be a defined type of this version) and flag
 nibble (must be the required value, Table 2-2); Remaining Length, minimally encoded; and
 Remaining Length bytes must be available. -/
-def splitFrame (v5 : Bool) : Bytes → Option Frame
+def splitFrame (minimal : Bool) (v5 : Bool) : Bytes → Option Frame
   | [] => none
   | b :: r => do
     let (t, required) ← ptypeOfNibble v5 (UInt8.ofNat (bits b 4 4))
     let flags := UInt8.ofNat (bits b 0 4)
     guard (required.all (· == flags))
-    let (len, r) ← varint r
+    let (len, digits, r) ← varintN minimal r
     guard (len ≤ r.length)
-    some ⟨t, flags, r.take len, 1 + varIntSize len + len⟩
+    some ⟨t, flags, r.take len, 1 + digits + len⟩
 
 /-- PUBLISH fixed-header flags (§3.3.1): DUP = bit 3, QoS = bits 2-1, RETAIN = bit 0. -/
 def pubDup (flags : UInt8) : Bool := bit flags 3
